@@ -405,13 +405,6 @@ def check_case(case, enforce_all=False):
         out.nontrivial = bool(must_reject and loc_nontrivial)
         return out
     except Exception as exc:  # noqa: BLE001
-        if isinstance(exc, RuntimeError) and "singular" in str(exc) and "offdiag-h0-towards-implicit-block" in out.labels and not enforce_all:
-            # known finding K4: in implicit mode the direct solver is built (sparse LU of E - H_0) BEFORE the check that
-            # H_0 is block diagonal, so this ill-posed input is rejected with scipy's RuntimeError("Factor is exactly
-            # singular") instead of the ValueError of the block-diagonality check
-            out.excluded.append("K4")
-            out.labels.append("class=K4")
-            return out
         out.fail("wrong-exception-type", f"{kind}: block_diagonalize raised {type(exc).__name__}: {str(exc)[:200]}")
         return out
     status, payload = _sweep(H_tilde, U, U_inv, nb, p["n_params"], p["K"])
